@@ -112,6 +112,31 @@ def fam_single_node_chains():
     return out
 
 
+def op_pow_in(fp, name='pw', x='x', u='u', k='k', style=None):
+    """x' = u^2 - k*x + u^3   (the input stands directly next to the power sign)"""
+    e = X.add(X.sub(X.pw(V(u), 2), X.mul(V(k), V(x))), X.pw(V(u), 3))
+    return OpSpec(name, [(x, 'de', e)], {x: ('state', fp()), u: ('input', fp()), k: ('const', fp())}, output=x,
+                  style=style or {})
+
+
+def fam_fanin_pow():
+    """one node: two operators write u, a third reads u inside powers - written u^2, u**2, u ^ 2, (u)^2: the textual
+    substitution u -> (u + u_v1) must find the identifier next to every spelling of the power sign"""
+    out = []
+    styles = [dict(space=0, pow='^'), dict(space=0, pow='**'), dict(space=1, pow='^'), dict(space=0, pow='^', parens=1),
+              dict(space=1, pow='**')]
+    for si, st in enumerate(styles):
+        fp = FP()
+        o_a = op_source(fp, 'srca', x='u', lam='la1')
+        o_b = op_sigmoid_alg(fp, 'sgb', m='u', v='vv')
+        o_p = op_pow_in(fp, style=st)
+        ops = {'srca': o_a, 'sgb': o_b, 'pw': o_p}
+        order = ['srca', 'sgb', 'pw'] if si % 2 == 0 else ['pw', 'sgb', 'srca']
+        nodes = {'n0': NodeSpec(order, _node_overrides(fp, ops, order))}
+        out.append((f"F1:fanin-pow:{si}", ModelSpec('m', ops, nodes, [], note=f"two ops output u -> pw.u, style {st}")))
+    return out
+
+
 def fam_mixed_nodes(seed=0, n=12):
     """F2b: 2-3 nodes of different operator structure (rpo+sg, li, two-input) with random edge sets incl. edges from
     two different variables of one node into one target variable, weight 1.0 / omitted / generic."""
